@@ -134,7 +134,7 @@ let run_script (toks : string list) : string =
     Printf.sprintf "ops=[%s] wire=[%s] tab=%s/[%s] rmap=[%s] smap=[%s] drv=%s"
       (String.concat " " (List.mapi opstr s.ops))
       (String.concat "," (List.map (fun (m, k) -> Printf.sprintf "%s/%d" (decimal_of_z m) (kind_tag k)) s.wout))
-      (if s.drv = Running then decimal_of_z s.last0 else "-") (if s.drv = Running then zs s.inuse else "") (zs (List.map fst s.rmap)) (zs (List.map fst s.smap))
+      (decimal_of_z s.last0) (zs s.inuse) (zs (List.map fst s.rmap)) (zs (List.map fst s.smap))
       (match s.drv with Running -> "running" | EndedOk -> "ok" | EndedErr -> "err" | EndedPanic -> "panic") in
   let out = Buffer.create 256 in
   List.iter (fun tok ->
